@@ -667,7 +667,7 @@ func C09(c *run.Check) {
 		}
 		sizes = append(sizes, 1023, 1024, 1025, 4097, 20000)
 		run.ParallelW(len(sizes), func(_, si int) {
-			if c.Violations() > 0 || c.TimeUp() {
+			if c.Violations() > 0 {
 				return
 			}
 			k := sizes[si]
